@@ -178,6 +178,17 @@ func (w *World) Alloc(k Kind, named bool, ch, length, capacity int) int {
 	return vid
 }
 
+// ZeroValue adds the zero value of Buffer[T] (a composite literal, not made by Alloc) as a view
+func (w *World) ZeroValue(k Kind) int {
+	b := Alloc(k, false, signal.Allocator{}).ZeroLike()
+	vid := w.addView(b)
+	w.registerBlock(b) // (an empty block, as for every allocation: block numbers follow creation order)
+	w.opline("zerobuf %d %s -> ok", vid, k)
+	w.st.op("zerobuf")
+	w.Dump()
+	return vid
+}
+
 func (w *World) Slice(src int, s, e int) int {
 	var b DynBuf
 	p := try(func() { b = w.views[src].Slice(s, e) })
